@@ -15,4 +15,9 @@ _core_check.source_tab(ctx)      # "assigning next" runs in every update (Proper
 _core_check.source_update(ctx)   # every stage computes its component of compile_with stale R from R and `stale` alone (Properties_update_source)
 res = coresuite.history_suite(ctx.tier, ctx.seed)
 cov = coresuite.summarize_groups(ctx, res, 'updates of load/unload histories')
+# the registration objects themselves (class_declaration / use_classes constructed and destroyed across updates), which H1
+# bypasses: checks/C07_glue.py
+import C07_glue
+cov['registration_object_histories (real class registration objects constructed / destroyed between updates, every legal call after every update against the answers of a fresh process; checks/C07_glue.py)'] = \
+    C07_glue.run(ctx, lambda summary, rep: ctx.violation(summary, rep))
 vlib.finish(ctx, cov, assumptions=['harness H1 keeps one process alive across all cases: the policies\' persistent state (dispatch_data, v-table pointer vectors, hash parameters, static v-table pointers of removed classes) leaks from case to case on purpose'])
